@@ -25,8 +25,9 @@ ASSUMPTIONS = ["strict IPS reader mc/ref/ips.py", "image comparison applies writ
 M = 0xFFFF
 E = ips.EOF_OFFSET
 LENGTHS = [0, 1, 2, M - 1, M, M + 1, M + 2, 2 * M - 1, 2 * M, 2 * M + 1, 3 * M + 1]
+# (the last four: blocks of exactly 1, 2 or 3 maximal records that END on the last representable byte)
 ADDRS = [0, 1, 0x8000, 0xFFFF, 0xFFFDFF, 0xFFFE00, 0xFFFFFF, 0x1000000, -1, E, E - 0x200, E - M, E - M - 0x200, E - 2 * M,
-         E - 2 * M - 0x200]
+         E - 2 * M - 0x200, 0x1000000 - M, 0x1000000 - 2 * M, 0x1000000 - 3 * M, 0x1000000 - 2 * M - 0x200]
 LENGTHS_T = [0, 1, M, M + 1, 2 * M + 1]
 ADDRS_T = [0, 0xFFFF, 0xFFFE00, 0xFFFFFF, -1, E - 0x200, E - M, 1]
 _BASE = None
@@ -43,7 +44,7 @@ def base():
 def bound(tier):
     a3, l3 = (len(ADDRS), len(LENGTHS)) if tier == "thorough" else (len(ADDRS_T), len(LENGTHS_T))
     return (f"all histories of depth <=2 over {len(ADDRS)}x{len(LENGTHS)} events and of depth 3 over {a3}x{l3} events, "
-            "x copier header on/off; 8 special block contents (uniform runs, 00/FF mixes, runs inside other data) x all depth-1 histories over 15x14 events and depth-2 over 8x4 events")
+            "x copier header on/off; 8 special block contents (uniform runs, 00/FF mixes, runs inside other data) x all depth-1 histories over 19x14 events and depth-2 over 8x4 events")
 
 
 def events(addrs, lengths):
